@@ -97,6 +97,7 @@ def sign(v: Any) -> Optional[int]:
 
 class PosInterp:
     MAX_STEPS = 50000
+    tag = 'POS-SEM'
 
     def __init__(self, ts: TS, script: list[int]) -> None:
         self.ts = ts
@@ -107,7 +108,7 @@ class PosInterp:
         self.steps = 0
 
     def err(self, node: ast.AST, what: str) -> AnalysisError:
-        return AnalysisError(f'POS-SEM: unsupported {what}: `{norm(node)[:90]}` (token_store.py:{getattr(node, "lineno", "?")})')
+        return AnalysisError(f'{self.tag}: unsupported {what}: `{norm(node)[:90]}` (line {getattr(node, "lineno", "?")})')
 
     def choose(self, label: str) -> int:
         c = self.script[self.pos] if self.pos < len(self.script) else 0
@@ -222,6 +223,18 @@ class PosInterp:
                 if isinstance(c, Builtin) and c.name == 'list':
                     return isinstance(v, list)
                 raise self.err(node, 'isinstance')
+            if n in ('max', 'min'):
+                vals = list(args[0]) if len(args) == 1 and isinstance(args[0], (list, tuple)) else list(args)
+                best = vals[0]
+                for v in vals[1:]:
+                    s_ = self.sign_of(add(v, best, -1), node)        # v - best
+                    if (s_ > 0) == (n == 'max') and s_ != 0:
+                        best = v
+                return best
+            if n == 'bool':
+                return self.truth(args[0], node)
+            if n == 'abs':
+                return args[0] if self.sign_of(args[0], node) >= 0 else mul(args[0], -1)
             if n == 'copy.copy':
                 v = args[0]
                 if isinstance(v, Obj):
@@ -415,7 +428,7 @@ class PosInterp:
                 return env[e.id]
             if e.id in ('Position', '_StoreHandle', '_StoreBlock'):
                 return ClassRef(e.id)
-            if e.id in ('len', 'range', 'enumerate', 'list', 'isinstance'):
+            if e.id in ('len', 'range', 'enumerate', 'list', 'isinstance', 'max', 'min', 'bool', 'abs'):
                 return Builtin(e.id)
             if e.id == 'NotImplemented':
                 return 'NotImplemented'
